@@ -210,7 +210,7 @@ Lemma deadlock_shape_l c s :
 Proof.
   intros Hc R Q L.
   destruct (reachable_inv _ _ Hc R) as ((T1 & T2 & T3 & T4) & _ & (_ & _ & _ & _ & _ & G6) & _).
-  destruct (lock s) as [|k|p] eqn:E; [congruence| |exfalso; eapply T4; reflexivity].
+  destruct (lock s) as [|k|p|] eqn:E; [congruence| |exfalso; eapply T4; reflexivity|exfalso; exact (reach_nobcast _ _ R E)].
   pose proof (T3 _ eq_refl) as Tk.
   assert (S0 : cnt is_insel (prods s) = 0).
   { apply cnt_zero_of_none; [exact G6|]. intros q w Hq. destruct w; try reflexivity. exfalso.
@@ -232,5 +232,6 @@ Lemma token_lets_waiter_proceed_l c s p sz :
   exists s', step c s (LSelTok p) = Some (s', 0) /\ pget p (prods s') = Some (PLeftTok sz).
 Proof.
   intros H T. unfold step. rewrite H, T.
-  destruct (lock s); eexists; (split; [reflexivity|]); unfold deliver; try destruct k; ss; apply pget_pset_eq.
+  destruct (lock s); eexists; (split; [reflexivity|]); unfold deliver; try destruct k;
+    ss; try (destruct (waiting s - 1 =? 0)); ss; apply pget_pset_eq.
 Qed.
